@@ -361,6 +361,7 @@ type Clause struct {
 	Expr  *SExpr
 	Text  string
 	Line  string // file:line for diagnostics
+	Assumed bool // an "assumes" clause: used by callers, not checked against the body
 }
 
 type FuncContract struct {
@@ -528,6 +529,14 @@ func (cs *Contracts) parseLines(pkgPath string, lines, wheres []string) {
 		case "results":
 			if cur != nil {
 				cur.Results = strings.Fields(rest)
+			}
+		case "assumes":
+			// a postcondition that callers may use but that is NOT checked against the body
+			// (an assumed part of the contract; always listed in the evidence)
+			cl := mkClause("ensures")
+			if cl != nil && cur != nil {
+				cl.Assumed = true
+				cur.Ensures = append(cur.Ensures, cl)
 			}
 		case "requires", "ensures", "decreases":
 			cl := mkClause(word)
